@@ -397,7 +397,7 @@ func c04(c *ctx) {
 // C20 — Escrow / order-book accounting (order-book escrow only).
 func c20(c *ctx) {
 	r := c.r
-	r.Explain = "Static decision of the order-book escrow clause: (R1) in create/edit/delete/close order, DEX limit order and liquidity deposit, the account leg and the pool leg carry the same amount expression, the pool is chainId + the escrow (or holding) addend on the way in and on the way out, and the stored order carries that amount; (R2) a payout is followed on the same path by the deletion of the order that was read, and locked orders cannot be edited or deleted."
+	r.Explain = "Static decision of the order-book escrow clause: (R1) in create/edit/delete/close order, DEX limit order and liquidity deposit, the account leg and the pool leg carry the same amount expression, the pool is chainId + the escrow (or holding) addend on the way in and on the way out, and the stored order carries that amount; (R2) a payout is followed on the same path by the deletion of the order that was read, and locked orders cannot be edited or deleted; (R3) a pool object whose Amount was changed is persisted before the function returns ok; (R4) the cross-chain atomic lock is lifted only after the counter chain acknowledged our locked batch (receipt hash equality)."
 	r.NotCovered = []string{"escrow pool == Σ open orders over histories (needs values)", "liquidity-provider points, x*y=k, rounding, withdrawals (AMM arithmetic)", "duplicate or conflicting instructions inside one certificate"}
 	r.Trusted = []string{"PoolAdd/PoolSub/AccountAdd/AccountSub semantics (C04.R4)"}
 	l := newLedger(c)
@@ -693,5 +693,37 @@ func c20(c *ctx) {
 			})
 		}
 		r.Analysed["pool_holders_that_mutate"] = nHolders
+	}
+
+	// ------------------------------------------------------------------ R4
+	r.Rule("R4", "PATH", "settle once: in HandleReceiptsForOurLockedBatch the locked batch (the atomic lock that also guards against settling the counter chain's batch twice) is deleted only after the counter chain's ReceiptHash equalled the hash of our locked batch", 1)
+	hr := c.fn("fsm.(*StateMachine).HandleReceiptsForOurLockedBatch")
+	smDelete := c.fn("fsm.(*StateMachine).Delete")
+	bytesEqual := lookupStd(c.p, "bytes", "Equal")
+	if hr != nil && smDelete != nil && r.Anchor(bytesEqual != nil, "bytes.Equal") {
+		c.mpt(mptSpec{
+			rule: "R4", fn: hr, events: evSet{},
+			extraEv: func(in ssa.Instruction) string {
+				if cc := callCommon(in); cc != nil && callIs(cc, bytesEqual) && len(cc.Args) == 2 {
+					a, b := c.p.path(cc.Args[0]), c.p.path(cc.Args[1])
+					isRemote := func(p string) bool { return p == "$1.ReceiptHash" }
+					isLocal := func(p string) bool { return strings.Contains(p, "GetDexBatch(") && strings.HasSuffix(p, ".Hash()") }
+					if (isRemote(a) && isLocal(b)) || (isRemote(b) && isLocal(a)) {
+						return "ackHashEqual"
+					}
+				}
+				return ""
+			},
+			target: func(in ssa.Instruction, st *PState, e *pathEngine) string {
+				if cc := callCommon(in); cc != nil && callIs(cc, smDelete) {
+					if _, isDefer := in.(*ssa.Defer); !isDefer && strings.Contains(c.p.path(argOf(in.(ssa.CallInstruction), 0)), "KeyForLockedBatch(") {
+						return "unlock"
+					}
+				}
+				return ""
+			},
+			reqs:      func(string) []string { return []string{"ackHashEqual#0=T"} },
+			minTarget: 1,
+		})
 	}
 }
